@@ -81,6 +81,7 @@ fn value_universe(tier: Tier) -> Vec<(&'static str, Option<V>)> {
         ("lln", Some(V::List(vec![V::List(vec![V::Int(1)]), V::List(vec![V::Int(2)])]))),
         ("lmaps", Some(V::List(vec![m(vec![("k", V::Int(1))]), m(vec![("j", V::Int(2))])]))),
         ("mk1", Some(m(vec![("k", V::Int(1))]))),
+        ("ls", Some(V::List(vec![V::s("a"), V::s("b")]))),
     ];
     if tier == Tier::Thorough {
         u.extend(vec![
@@ -97,7 +98,6 @@ fn value_universe(tier: Tier) -> Vec<(&'static str, Option<V>)> {
             ("mkj", Some(m(vec![("k", V::Int(1)), ("j", V::Int(2))]))),
             ("lnull", Some(V::List(vec![V::Null]))),
             ("lf", Some(V::List(vec![V::Float(1.5), V::Float(2.0)]))),
-            ("ls", Some(V::List(vec![V::s("a"), V::s("b")]))),
         ]);
     }
     u
@@ -123,6 +123,9 @@ fn literal_universe(tier: Tier) -> Vec<Lit> {
         Lit::Regex("a".into()),
         Lit::RangeI(1, 2, true, true),
         v(V::List(vec![V::List(vec![V::Int(1)]), V::List(vec![V::Int(2)])])),
+        // list literals whose members match by more than structural equality
+        Lit::List(vec![Lit::Regex("^a".into()), Lit::V(V::s("b"))]),
+        Lit::List(vec![Lit::V(V::Int(5)), Lit::RangeI(1, 2, true, true)]),
     ];
     if tier == Tier::Thorough {
         l.extend(vec![
